@@ -58,6 +58,7 @@ class C05(Check):
     QUICK_S = 75
     THOROUGH_S = 1200
     CHUNK = 10
+    CANARY_N = 3
     N_ORDERS = 8
     RULE = ('one evaluation = one case set (generated or corpus grammar x option set x short inputs) evaluated under >= 8 seeded iteration '
             'orders in-process (salted Symbol/SymbolNode hashing + allocation noise, every parse repeated and the instance rebuilt), '
